@@ -169,6 +169,12 @@ class ClientAuthenticator:
                     b'ERROR ' + str(e).encode('unicode-escape'))
 
     def _auth_ERROR(self, line):
+        if self.guid is not None:
+            # OK was already received: this ERROR answers NEGOTIATE_UNIX_FD.
+            # Continue without file descriptor passing.
+            self.sendAuthMessage(b'BEGIN')
+            self.authenticated = True
+            return
         log.msg(
             'Authentication mechanism failed: '
             + line.decode("ascii", "replace")
